@@ -168,3 +168,98 @@ func mTreeStat(ex *Exec, c *callCtx) Value {
 	notExist := ex.globalObj(ex.prog.ImportedPackage("os").Var("ErrNotExist")).val
 	return TupleV{E: []Value{MergeV(exists, info, NilRef()), MergeV(exists, NilRef(), notExist)}}
 }
+
+// ---- display-width abstraction (C12 renderer totality, C19 row layout) ----
+// A string is abstracted to its display width: visibleLen(s) is the term visLenT(s), built
+// structurally (width of a concatenation = sum, of a literal = computed, of Repeat(" ", n) = n)
+// and uninterpreted (0..2^20) for free atoms.
+
+var widthMode bool
+
+func litWidth(s string) int64 {
+	// strip ANSI colour sequences (ESC ... 'm'), then count runes (ergo's literals hold no wide runes)
+	n := int64(0)
+	in := false
+	for _, r := range s {
+		if r == 0x1b {
+			in = true
+			continue
+		}
+		if in {
+			if r == 'm' {
+				in = false
+			}
+			continue
+		}
+		n++
+	}
+	return n
+}
+
+var visMemo = map[*Term]*Term{}
+
+func (ex *Exec) visLenT(t *Term) *Term {
+	if r, ok := visMemo[t]; ok {
+		return r
+	}
+	var r *Term
+	switch {
+	case t.IsConst():
+		if l, ok := Lits.byCode[t.ival.Int64()]; ok {
+			r = BVC(litWidth(l), 64)
+		}
+	case t.op == "ite":
+		r = Ite(t.args[0], ex.visLenT(t.args[1]), ex.visLenT(t.args[2]))
+	case t.op == "uf:cat":
+		r = BVBin("bvadd", ex.visLenT(t.args[0]), ex.visLenT(t.args[1]))
+	case t.op == "uf:repeat":
+		n := t.args[1]
+		r = BVBin("bvmul", Ite(BVCmp("bvslt", n, BVC(0, 64)), BVC(0, 64), n), ex.visLenT(t.args[0]))
+		if w := ex.visLenT(t.args[0]); w.IsConst() && w.SVal() == 1 {
+			r = Ite(BVCmp("bvslt", n, BVC(0, 64)), BVC(0, 64), n)
+		}
+	}
+	if r == nil {
+		r = UF("vislen", SBV(64), t)
+		ex.assume(And(BVCmp("bvsle", BVC(0, 64), r), BVCmp("bvsle", r, BVC(1<<20, 64)), Implies(Eq(t, IntC(0)), Eq(r, BVC(0, 64)))))
+	}
+	visMemo[t] = r
+	return r
+}
+
+func installWidthModels() {
+	modelTable[ergoPath+".zzWidthMode"] = func(ex *Exec, c *callCtx) Value { widthMode = true; return nil }
+	modelTable[ergoPath+".zzWidth"] = func(ex *Exec, c *callCtx) Value {
+		switch s := c.args[0].(type) {
+		case StrV:
+			return IntV{ex.visLenT(s.T), true}
+		case BStrV:
+			return IntV{s.Len, true}
+		}
+		panic(unsupported("zzWidth of %T", c.args[0]))
+	}
+	modelTable[ergoPath+".zzStrip"] = func(ex *Exec, c *callCtx) Value {
+		if l, ok := litOf(c.args[0]); ok {
+			var sb strings.Builder
+			in := false
+			for _, r := range l {
+				if r == 0x1b {
+					in = true
+					continue
+				}
+				if in {
+					if r == 'm' {
+						in = false
+					}
+					continue
+				}
+				sb.WriteRune(r)
+			}
+			return StrLit(sb.String())
+		}
+		return StrV{T: UF("stripansi", SInt, c.args[0].(StrV).T)}
+	}
+	modelTable[ergoPath+".zzTruncUF"] = func(ex *Exec, c *callCtx) Value {
+		return StrV{T: UF("truncw", SInt, c.args[0].(StrV).T, c.args[1].(IntV).T)}
+	}
+}
